@@ -1,6 +1,7 @@
 (* Properties/C18.v — Name equality, ordering and hashing are case-insensitive and coherent. *)
 From RsdnsModel Require Import Base Names.
-From RsdnsModel.Proofs Require Import NameOrder.
+From RsdnsModel.Spec Require Import NameText.
+From RsdnsModel.Proofs Require Import NameOrder NameEqStr.
 Open Scope N_scope.
 
 (* for all texts (byte strings): equal exactly when they compare Equal *)
@@ -21,3 +22,9 @@ Theorem C18_hash : forall a b, name_eq a b = true -> name_hash_feed a = name_has
 Proof. exact eq_hash. Qed.
 Theorem C18_hash_is_fold : forall a, name_hash_feed a = fold_case a.
 Proof. exact hash_feed_fold. Qed.
+(* name == &str (both name types): on a name in canonical form — every decoded or parsed name ends
+   with the root dot — it is case-insensitive equality with the canonical spelling of the text,
+   i.e. the root dot is optional in the text and nothing else is *)
+Theorem C18_eq_str_is_canon : forall t s,
+  name_eq_str (t ++ [x2e]) s = name_eq (t ++ [x2e]) (canon_text s).
+Proof. exact name_eq_str_spec. Qed.
